@@ -286,7 +286,7 @@ def rand_ret_ty(rng, D, n):
     if k < 0.62:
         tid = rng.choice(["H1", "H2"])
         return ("opaque", False, None, tid, [nl() for _ in range(D.d[tid]["n"])], False)          # Box<H<'a>>
-    if k < 0.7: return ("slice", False, nl(), "str")
+    if k < 0.7: return ("slice", False, nl(), rng.choice(["str", "u8", "u8"]))
     tid = rng.choice(["S1", "S2", "S3"])
     return ("struct", False, tid, [nl() for _ in range(D.d[tid]["n"])])
 
@@ -335,6 +335,18 @@ def gen_method(rng, D, name, max_lts=4):
     if rng.random() < 0.88:
         fix_method(D, m)
     return m
+
+
+def fixed_methods(D):
+    """shapes every bridge carries: a borrowed primitive slice (zero-copy in nanobind) and a borrowed string, from a parameter"""
+    out = []
+    for name, flavour in (("fx0", "u8"), ("fx1", "str")):
+        m = dict(name=name, owner="Op", k_impl=0, n=1, wrap="plain", places={"impl_param": {}, "impl_where": [], "meth_param": {}, "meth_where": []},
+                 self=None, pnames=["p0", "p1"], params=[("opaque", False, 0, "Op", [], False), ("prim",)], ret=[("slice", False, 0, flavour)])
+        m["self"] = None
+        flat_decl(m)
+        out.append(m)
+    return out
 
 
 def flat_decl(m):
